@@ -263,6 +263,11 @@ func (x *EvalCtx) ident(name string) Val {
 				v := x.s.env[nb.V]
 				return Val{T: intT, S: app("+", v.S, "1")}
 			}
+			if nb, ok := x.s.names["itercount"]; ok {
+				if v, ok := x.s.env[nb.V]; ok {
+					return Val{T: intT, S: v.S}
+				}
+			}
 		}
 		if nb, ok := x.s.names[name]; ok {
 			v, ok2 := x.s.env[nb.V]
@@ -870,6 +875,11 @@ func (x *EvalCtx) callExpr(n *ECall) Val {
 		a, b := x.eval(n.Args[0]), x.eval(n.Args[1])
 		x.s.c.declare("repeatS", "(declare-fun repeatS (Str Int) Str)")
 		return Val{T: strT, S: app("repeatS", a.S, b.S)}
+	case "mdhtml":
+		// mdhtml(t): the HTML goldmark's Convert writes for the source t (a function of the source: assumed)
+		a := x.eval(n.Args[0])
+		x.s.c.declare("mdhtml", "(declare-fun mdhtml (Str) Str)")
+		return Val{T: strT, S: app("mdhtml", a.S)}
 	case "mkclean":
 		a := x.eval(n.Args[0])
 		x.s.declMk()
